@@ -620,6 +620,37 @@ func (g *gen) drawLeafref(ctx typeCtx, label string) *typ {
 	if len(cands) == 0 {
 		return nil
 	}
+	// one time in three the reference stays inside its own container or list entry (a leaf and a leafref to it
+	// side by side then share one Go type, which matters when that type is a union or an enumeration)
+	if g.chance(35, label+"-lrsibling") {
+		var sib, enumerated []target
+		for _, c := range cands {
+			if len(c.path) != len(sc.dataPath)+1 {
+				continue
+			}
+			same := true
+			for i := range sc.dataPath {
+				if sc.dataPath[i] != c.path[i] {
+					same = false
+				}
+			}
+			if !same {
+				continue
+			}
+			sib = append(sib, c)
+			if c.t.hasKind("enumeration") || c.t.hasKind("identityref") {
+				enumerated = append(enumerated, c)
+			}
+		}
+		switch {
+		case len(enumerated) > 0 && g.chance(60, label+"-lrsibenum"):
+			cands = enumerated
+			g.feat("leafref-to-enumerated-sibling")
+		case len(sib) > 0:
+			cands = sib
+			g.feat("leafref-to-sibling")
+		}
+	}
 	tg := pick(g, cands, label+"-lrtarget")
 	withPfx := g.chance(50, label+"-lrpfx")
 	segText := func(s seg) string {
